@@ -288,9 +288,15 @@ func StatementProcessor(gs *gripql.GraphStatement, db gdbi.GraphInterface, ps *p
 		return &Marker{stmt.As}, nil
 
 	case *gripql.GraphStatement_Set:
+		if ps.LastType != gdbi.VertexData && ps.LastType != gdbi.EdgeData {
+			return nil, fmt.Errorf(`"set" statement is only valid for edge or vertex types not: %s`, ps.LastType.String())
+		}
 		return &ValueSet{key: stmt.Set.Key, value: stmt.Set.Value.AsInterface()}, nil
 
 	case *gripql.GraphStatement_Increment:
+		if ps.LastType != gdbi.VertexData && ps.LastType != gdbi.EdgeData {
+			return nil, fmt.Errorf(`"increment" statement is only valid for edge or vertex types not: %s`, ps.LastType.String())
+		}
 		return &ValueIncrement{key: stmt.Increment.Key, value: stmt.Increment.Value}, nil
 
 	case *gripql.GraphStatement_Mark:
@@ -356,6 +362,7 @@ func StatementProcessor(gs *gripql.GraphStatement, db gdbi.GraphInterface, ps *p
 			if _, ok := aggs[a.Name]; ok {
 				return nil, fmt.Errorf("duplicate aggregation name '%s' found; all aggregations must have a unique name", a.Name)
 			}
+			aggs[a.Name] = a
 		}
 		ps.LastType = gdbi.AggregationData
 		return &aggregate{stmt.Aggregate.Aggregations}, nil
